@@ -288,8 +288,7 @@ def observe(text):
 # ---------------------------------------------------------------------------------------------------
 def expected_segments(text):
     """per token of the reference tokenizer the admissible renderings [(segment text in its original
-    delimiters, origin string)]: with trailing empty elements / components dropped (the documented
-    normalisation) and as written; origin has one letter per character: i = segment id, d = delimiter,
+    delimiters, origin string)]: as written (an element-less segment in its formatted form); origin has one letter per character: i = segment id, d = delimiter,
     v = element value"""
     toks, d = ref.tokenize(text)
     seg_t, ele, sub = d
@@ -302,7 +301,9 @@ def expected_segments(text):
         if t.murky or t.blank:
             murky = True
         forms = []
-        for e in ([t.eles] if t.id == 'ISA' else [ref.trim(t.eles), t.eles]):
+        # the report lists the segment as it was READ ("stripping the markup recovers the source segments"): trailing
+        # empty elements / components are part of it; only a segment without any element has the pinned 'AAA*~' form
+        for e in ([t.eles] if (t.id == 'ISA' or ref.trim(t.eles)) else [ref.trim(t.eles)]):
             s = [t.id]; o = ['i' * len(t.id)]
             if not e:
                 s.append(ele); o.append('d')       # 'AAA' formats as 'AAA*~' (pinned by the suite)
